@@ -7,7 +7,8 @@ Rust item (pdf/src/…)                                        → definition he
   makes back into the resolver (`get`, `get_data_or_decode`)  → `Prog` (an interaction tree), `Doc.body T r`
 `Storage::decode(id, range, filters)` (file.rs:142)           → `Doc.decode r fs` (pure: backend read, decrypt,
                                                                 filter chain; the range is a function of `id`)
-`StorageResolver::get::<T>` (file.rs:309-348)                 → `getM` : guard check on `chain`, push,
+`StorageResolver::get::<T>` (file.rs)                         → `getM` : guard check on `chain`, nesting limit
+                                                                `MAX_NESTED_GETS`, push,
                                                                 `cache.get_or_compute`, type-checked downcast
                                                                 (`AnySync::downcast`, any.rs:89) with uncached
                                                                 fallback on mismatch, cached `Err`, pop;
@@ -88,6 +89,9 @@ def Cfg.stmOnly : Cfg := ⟨false, true, false⟩
 
 variable {V E : Type}
 
+/-- `MAX_NESTED_GETS` (file.rs): how many typed loads may be in progress inside each other -/
+def maxNestedGets : Nat := 64
+
 /-- `get_data_or_decode`: `stream_cache.get_or_compute(id, || decode(id, range, filters))` -/
 def dataM (d : Doc V E) (cfg : Cfg) (st : St V E) (r : Nat) (fs : List Nat) : Res V E × St V E :=
   if cfg.stmCache then
@@ -134,6 +138,8 @@ def getM (d : Doc V E) (cfg : Cfg) : Nat → List Nat → St V E → Nat → Nat
   | 0, _, st, _, _ => (.oof, st)
   | f+1, ch, st, T, r =>
     if r ∈ ch then (.err d.recErr, st) else
+    -- `bail!("references nested too deeply")`: the same kind of error (`PdfError::Other`)
+    if maxNestedGets ≤ ch.length then (.err d.recErr, st) else
     if cfg.objCache then
       match st.obj.lookup r with
       | some (.val T' v) =>
